@@ -28,7 +28,7 @@ var Targets = []string{"93.184.216.34:53", "93.184.216.34:80", "[2606:2800:220:1
 var Strangers = []string{"198.51.100.77:7777", "198.51.100.77:53"}
 
 type Op struct {
-	K   string        `json:"k"`             // S send | R reply | X stranger | A advance | Q shutdown | QL close listener L only | E read error | P parallel
+	K   string        `json:"k"`             // S send | R reply | X stranger | A advance | Q shutdown | QL close listener L only | U key list replaced by one without key Key | E read error | P parallel
 	C   int           `json:"c,omitempty"`   // client
 	Key int           `json:"key,omitempty"` // key index; -1 foreign key
 	T   int           `json:"t,omitempty"`   // target (S, R) or stranger (X)
@@ -283,6 +283,8 @@ func Run(cfg Config, ops []Op, tr *Trace) {
 						wire := world.PackUDP(key, uint64(1000+i*16+j), plain)
 						ss.Sent, ss.Plain, ss.Dst = wire, payload, Targets[sub.T]
 						w.Sock(Clients[sub.C]).SendRaw(wire, proxies[sub.L%len(proxies)])
+					case "U":
+						w.List.Update(world.MakeList(keysWithout(cfg.Keys, sub.Key)))
 					case "R", "X":
 						if ss.ReplyPort == 0 {
 							ss.Skipped = true
@@ -401,6 +403,10 @@ func Run(cfg Config, ops []Op, tr *Trace) {
 		case "A":
 			vrt.Sleep(op.D)
 			observe(st, -1)
+		case "U":
+			// the key list is replaced by one without key op.Key (a reload that revokes it)
+			w.List.Update(world.MakeList(keysWithout(cfg.Keys, op.Key)))
+			observe(st, -1)
 		case "QL":
 			// only listener L of the service is closed (a reload that drops one UDP address)
 			w.StopListener(op.L % len(proxies))
@@ -422,6 +428,16 @@ func Run(cfg Config, ops []Op, tr *Trace) {
 	tr.Returned = w.Returned
 	tr.Recovered = hk.RecoveredPanics()
 	tr.AllMetrics = w.Rec.Events
+}
+
+func keysWithout(keys []*world.Key, drop int) []*world.Key {
+	var out []*world.Key
+	for i, k := range keys {
+		if i != drop {
+			out = append(out, k)
+		}
+	}
+	return out
 }
 
 func srcOf(vw *vnet.World, u *vnet.UDPConn, op Op) string {
